@@ -5,7 +5,7 @@ import numpy as rnp
 import z3
 
 from symx import ctx
-from symx.proxy import SR, SC, plain, Unsupported
+from symx.proxy import SR, SC, plain, Unsupported, tz
 from symx.shim import NumpyShim, clone_module, oarr, SymNd
 from . import result as R
 
@@ -13,8 +13,8 @@ PROPERTY = "C15"
 META = {
     "bounds": {"quick": "q = 1, 2 inputs (numeric and analytic solver, the real sympy.solve/lambdify run), one generic frequency bin whose joint spectral matrix over (x1..xq, y) is ANY Hermitian positive semidefinite matrix with positive definite input block, parametrised by its Cholesky factor (symbolic complex entries, positive diagonal, last pivot >= 0); permutations and invertible real re-mixings M of the inputs (symbolic M for q=2); SISO on a generic bin with complex coupling",
                "thorough": "q = 3 (numeric and analytic), all permutations"},
-    "outside": ["q = 4", "the ill-conditioned branch (np.linalg.pinv when cond > 1e12)", "estimation of the spectral matrix from data (C01/C09): here `ltf` is a stub returning consistent spectra"],
-    "stubs": ["ltf -> result objects whose Gxx/Gyy/Gxy are drawn from ONE joint Hermitian spectral matrix (Gxy = E[X conj Y], the convention proved for the kernels in C01)", "np.linalg.solve -> Cramer's rule on the symbolic matrix; np.linalg.cond -> 1", "sympy: not stubbed"],
+    "outside": ["q = 4", "the ill-conditioned branch (cond > 1e12) for SINGULAR matrices and the rank cut-off of np.linalg.pinv (pinv is encoded as the inverse of a nonsingular matrix)", "estimation of the spectral matrix from data (C01/C09): here `ltf` is a stub returning consistent spectra"],
+    "stubs": ["ltf -> result objects whose Gxx/Gyy/Gxy are drawn from ONE joint Hermitian spectral matrix (Gxy = E[X conj Y], the convention proved for the kernels in C01)", "np.linalg.solve -> Cramer's rule on the symbolic matrix; np.linalg.cond -> 1 (well-conditioned branch) or 1e13 (obligations agree/*/ill-conditioned: fallback branch); np.linalg.pinv -> inverse by Cramer's rule", "sympy: not stubbed"],
     "assumptions": ["bin averaged over more than q segments <=> input spectral matrix positive definite (Cholesky parametrisation)"],
 }
 
@@ -130,7 +130,20 @@ def _channels(q):
     return ins, out, (lambda a: idx[float(rnp.asarray(a)[0])])
 
 
-def run_miso(W, which, q, G, order=None):
+def pinv_stub(T, **k):
+    """np.linalg.pinv of a nonsingular matrix is its inverse (the harness's spectral matrices have positive Cholesky pivots)"""
+    T = rnp.asarray(T, dtype=object)
+    n = T.shape[0]
+    cols = [cramer_solve([list(r) for r in T], [1 if i == c else 0 for i in range(n)]) for c in range(n)]
+    out = rnp.empty((n, n), dtype=object)
+    for c in range(n):
+        for i in range(n):
+            out[i, c] = cols[c][i]
+    from symx.shim import SymNd
+    return out.view(SymNd)
+
+
+def run_miso(W, which, q, G, order=None, illcond=False):
     import speckit.systems as S
     ins, out, chan = _channels(q)
     order = list(order) if order is not None else list(range(q))
@@ -138,7 +151,7 @@ def run_miso(W, which, q, G, order=None):
     fn = {"numeric": "MISO_numeric_optimal_spectral_analysis", "analytic": "MISO_analytic_optimal_spectral_analysis"}[which]
     if W.sym:
         from symx import shim as _sh
-        NP = NumpyShim(linalg_solve=lambda T, Sv: cramer_solve(T, Sv), linalg_cond=lambda T: 1.0, allclose=lambda a, b, **k: bool(rnp.allclose(a, b, **k)))
+        NP = NumpyShim(linalg_solve=lambda T, Sv: cramer_solve(T, Sv), linalg_cond=lambda T: (1e13 if illcond else 1.0), linalg_pinv=pinv_stub, allclose=lambda a, b, **k: bool(rnp.allclose(a, b, **k)))
         Gm = clone_module(S, dict(np=NP, ltf=ltf))
         W.run.poly_div = True
         del _sh.CSQRT_ARGS[:]
@@ -220,12 +233,16 @@ def ob_miso_q4(W):
     W.goal("q4/residual^2 = Schur complement", W.eq(asd * asd, pivot2))
 
 
-def ob_agree(W, q):
+def ob_agree(W, q, illcond=False):
     L, ok = cholesky_inputs(W, q + 1)
     if not ok:
         return
+    if illcond and W.sym:
+        # replay-friendly models: inputs in very different units (second pivot 2^-24 of the first), so that the REAL np.linalg.cond
+        # exceeds 1e12 and the real code takes the same branch as the symbolic run (whose cond stub returns 1e13)
+        W.nice = [tz(L[0][0]) == 1, tz(L[1][1]) == z3.RealVal(1) / z3.RealVal(2 ** 24), tz(L[1][0].re) == 0, tz(L[1][0].im) == 0]
     G = gram(W, L)
-    a, b = run_miso(W, "numeric", q, G), run_miso(W, "analytic", q, G)
+    a, b = run_miso(W, "numeric", q, G, illcond=illcond), run_miso(W, "analytic", q, G)
     W.goal("analytic = numeric", W.eq(a * a, b * b))
 
 
@@ -276,4 +293,6 @@ def obligations(tier):
             if q <= 2:
                 obs.append({"name": "%s/q%d/remix" % (which, q), "fn": "ob_miso", "params": {"which": which, "q": q, "case": "remix"}, "fork": True, "max_paths": 64, "timeout": to, "weight": 20})
         obs.append({"name": "agree/q%d" % q, "fn": "ob_agree", "params": {"q": q}, "fork": True, "max_paths": 64, "timeout": to, "weight": q ** 3})
+        if q == 2:     # (a 1x1 matrix has condition number 1: the fallback branch is unreachable for one input)
+            obs.append({"name": "agree/q%d/ill-conditioned" % q, "fn": "ob_agree", "params": {"q": q, "illcond": True}, "fork": True, "max_paths": 64, "timeout": to, "weight": q ** 3})
     return obs
